@@ -440,6 +440,10 @@ def run(ctx, ck):
               'the loop over the media is left at the first medium without a reflection point: the entries of all later '
               'media keep their initial value')
     ck.info('media_loops_with_stores', n_ml)
+    from ._sym import check_ground_symmetry
+    ck.rule('R-SYM.ground-halves', 'statements selecting one half of the ground flags select the other too')
+    nsel_, nst_ = check_ground_symmetry(ctx, ck)
+    ck.floor('statements selecting a half of the ground flags', nst_, 3)
     ck.rule('R-PAIR.media-chain', 'set_next(None) (which replaces the boundary coordinate by infinity) only for a medium without successor')
     ck.floor('set_next calls linking the media', check_media_chain(ctx, ck), 2)
     ck.undecided += ['convergence of the real-ground pattern to the ideal-ground pattern',
